@@ -329,7 +329,7 @@ _RE_DEPTH = re.compile(r"The depth of the complete state graph search is (\d+)")
 _RE_INV = re.compile(r"Error: Invariant (\S+) is violated")
 _RE_PROP = re.compile(r"Error: (?:Action|Temporal) property (\S+) is violated")
 _RE_COV = re.compile(r"^<(\w+) line (\d+), col \d+ to line \d+, col \d+ of "
-                     r"module (\w+)>: (\d+):(\d+)", re.M)
+                     r"module (\w+)(?: \([\d ]+\))?>: (\d+):(\d+)", re.M)
 
 
 def parse_tlc(out):
